@@ -228,6 +228,95 @@ class _LeafEnv(dict):
         return ('leaf', v)
 
 
+def walk_order(ctx, py, w):
+    """Interpreter.pattern pushes the operands of a constructor by interpreting the sub-patterns; the ORDER of those recursive calls
+    is the order of the stack slots the tracking interpreters check (`expected_x = self.stack[-k]`).  The conclusion-only
+    interpreter has no stack and accepts any order, so a wrong order makes the interpreters disagree on success."""
+    from ..core.pyeval import PyEval, show
+    fn = py.method('Interpreter', 'pattern', 'interpreter')
+    where = py.where('interpreter', fn)
+    SELF = ('param', 'self')
+    n_arms = 0
+    for p in PyEval().paths(fn):
+        if p.end[0] != 'return' or p.end[1][0] != 'call' or p.end[1][1][0] != 'attr' or p.end[1][1][1] != SELF:
+            continue
+        meth, args = p.end[1][1][2], p.end[1][2]
+        st = PM.level_facts(py, w.stateful, meth)
+        if st is None:
+            continue
+        params = [a.arg for a in st.node.args.args[1:]]
+        slot_of, run_of = {}, {}
+        for rec in st.paths:
+            for a, b in rec['binds']:
+                for x, y in ((a, b), (b, a)):
+                    if x[0] == 'slot' and y[0] == 'param':
+                        slot_of[y[1]] = x[1]
+                    if x[0] == 'run':
+                        for q in params:
+                            if ('param', q) in _flat(y):
+                                run_of[q] = x
+        recs, loops = [], []
+        for i, e in enumerate(p.events):
+            if e.kind == 'ecall' and e.value[0] == 'call' and e.value[1] == ('attr', SELF, 'pattern'):
+                recs.append((i, e.value))
+            if e.kind == 'loop':
+                loops.append((i, e))
+        n = len(recs)
+        probs = []
+        for q, a in zip(params, args):
+            if q in slot_of:
+                idx = [j for j, (_i, v) in enumerate(recs) if v == a]
+                if not idx:
+                    continue                   # not built by the walker in this arm (scalar operand)
+                got = n - idx[0]
+                if got != slot_of[q]:
+                    probs.append(f'`{q}` is interpreted {_ord(idx[0] + 1)} of {n} and so lands {_ord(got)} from the top, the tracking '
+                                 f'interpreters expect it {_ord(slot_of[q])} from the top')
+            if q in run_of:
+                good = [1 for i, e in loops if e.value[2] == ('call', ('attr', a, 'values'), (), ()) and (not recs or i < recs[0][0])
+                        and any(ev.kind == 'ecall' and ev.value[0] == 'call' and ev.value[1] == ('attr', SELF, 'pattern')
+                                for sp in e.extra for ev in sp.events)]
+                if not good or n != 1:
+                    probs.append(f'the values of `{q}` must be interpreted, in map order, before the pattern they are plugged into')
+        n_arms += 1
+        ctx.ob('walk-order', f'pattern/{meth}', not probs,
+               f'Interpreter.pattern, {meth} arm: ' + '; '.join(probs) + ' - interpreters without a stack accept the call, the tracking ones '
+               f'raise', where, facts={'order': [show(v)[:40] for _i, v in recs], 'tracker slots': slot_of})
+    ctx.floor('walk-order', 8)
+
+
+def _flat(v):
+    out = [v]
+    if isinstance(v, tuple):
+        for x in v:
+            if isinstance(x, tuple):
+                out.extend(_flat(x))
+    return out
+
+
+def _ord(k: int) -> str:
+    return {1: '1st', 2: '2nd', 3: '3rd'}.get(k, f'{k}th')
+
+
+def tracker_compares_structurally(ctx, py, w):
+    """the tracking interpreters check that the caller's terms are the tracked ones with `==` (structural, sees through notation);
+    an identity test accepts strictly fewer calls than the other interpreters do (equal terms built twice, e.g. by a transformer)"""
+    n = 0
+    for ci in [w.stateful] + py.subclasses(w.stateful):
+        for mname, fn in ci.methods.items():
+            for node in ast.walk(fn):
+                if isinstance(node, ast.Compare):
+                    n += 1
+                    for op, rhs in zip(node.ops, node.comparators):
+                        if isinstance(op, (ast.Is, ast.IsNot)) and not any(
+                                isinstance(x, ast.Constant) and x.value in (None, True, False) for x in (node.left, rhs)):
+                            ctx.ob('tracker-compares-structurally', f'{ci.name}.{mname}', False,
+                                   f'{ci.name}.{mname} compares terms by identity (`{ast.unparse(node)[:70]}`): two equal terms that are '
+                                   f'distinct objects (rebuilt by a transformer, shared dict updated in between) are rejected here and '
+                                   f'accepted by every interpreter that compares with ==', py.where(ci.module, node))
+    ctx.ob('tracker-compares-structurally', 'scan', True, f'{n} comparisons examined', '')
+
+
 def run(ctx):
     py = PyRepo.get()
     w = Wiring(py)
@@ -244,6 +333,8 @@ def run(ctx):
                f'StatefulInterpreter.{meth} slices by -len(delta) without the empty-map guard its siblings '
                f'(BasicInterpreter.instantiate, InstantiationOptimizer) have: instantiate(pf, {{}}) succeeds under the conclusion-only '
                f'interpreter and trips the tracker', py.where(w.stateful.module, mf.node))
+    walk_order(ctx, py, w)
+    tracker_compares_structurally(ctx, py, w)
     ctx.floor('proved-confinement', 10)
     ctx.floor('forwarding', 26)
     ctx.floor('static-conclusion', 9)
